@@ -61,7 +61,7 @@ def _normalise(n):
             inner = loop["body"]["stmts"][0]["e"]
             some = inner["arms"][1]
             pat = some["pat"]["fs"][0]["p"]
-            return {"k": "For", "iter": it, "pat": pat, "body": some["body"], "s": n["s"], "t": n.get("t")}
+            return {"k": "For", "iter": it, "pat": pat, "body": some["body"], "s": n["s"], "t": n.get("t"), **({"m": n["m"]} if "m" in n else {})}
         except (KeyError, IndexError, TypeError):
             return n
     if k == "Match" and n.get("src") == "try":
@@ -73,7 +73,7 @@ def _normalise(n):
         try:
             iff = n["body"]["tail"]
             if iff["k"] == "If":
-                return {"k": "While", "cond": iff["cond"], "body": iff["then"], "s": n["s"], "t": n.get("t")}
+                return {"k": "While", "cond": iff["cond"], "body": iff["then"], "s": n["s"], "t": n.get("t"), **({"m": n["m"]} if "m" in n else {})}
         except (KeyError, TypeError):
             return n
     return n
@@ -237,6 +237,8 @@ class Body:
             if nm in names:
                 site = self.macro_site(n)
                 p = self.parent[n["_i"]]
+                while p is not None and p["k"] in ("Let", "Semi", "ExprStmt"):
+                    p = self.parent[p["_i"]]
                 if p is not None and self.macro_site(p) == site:
                     continue
                 # first node of that site in preorder is the root
